@@ -317,8 +317,27 @@ C17V(r) ==
 (***************************** C07 *****************************************)
 \* r.line (code points); r.acc = [N, S, E |-> accepted by that recogniser]; r.n / r.s / r.e the decoded data
 \* (digit sequences without leading zeros, idx, word as code points) of the accepting recognisers
+\* r.kind = "sec": a whole instrument section of canonical lines (strictly increasing ticks, lane / open indices
+\* only) parsed by the real pipeline; r.got = [N, S, E |-> observed data in list order]
+RECURSIVE ExpectedSec(_, _, _)
+ExpectedSec(lines, kd, k) ==
+  IF k > Len(lines) THEN <<>>
+  ELSE LET s == lines[k] IN
+       (IF kd = "N" /\ Accepts(CanonN, s) THEN LET d == DecodeN(s) IN << <<d.tick, d.idx, d.len>> >>
+        ELSE IF kd = "S" /\ Accepts(CanonS, s) THEN LET d == DecodeS(s) IN << <<d.tick, d.len>> >>
+        ELSE IF kd = "E" /\ Accepts(CanonE, s) THEN LET d == DecodeE(s) IN << <<d.tick, d.word>> >>
+        ELSE <<>>) \o ExpectedSec(lines, kd, k + 1)
+C07SecV(r) ==
+  IF r.raised # "" THEN <<"fail", "canonical-instrument-section-rejected">>
+  ELSE FirstFail(<<
+    <<"every-canonical-N-line-yields-its-datum", r.got.N = ExpectedSec(r.lines, "N", 1)>>,
+    <<"every-canonical-S-line-yields-its-phrase", r.got.S = ExpectedSec(r.lines, "S", 1)>>,
+    <<"every-canonical-E-line-yields-its-event", r.got.E = ExpectedSec(r.lines, "E", 1)>>
+  >>)
+
 C07V(r) ==
   IF r.kind = "lang" THEN LangV(r) ELSE
+  IF r.kind = "sec" THEN C07SecV(r) ELSE
   LET s == r.line IN
   FirstFail(<<
     <<"canonical-N-line-accepted", Accepts(CanonN, s) => r.acc.N>>,
